@@ -29,7 +29,7 @@ def pool():
 def plan(tier, seed):
     specs = [(1, 2), (2, 2), (3, 2), (4, 2), (5, 1), (6, 1)] if tier == 'quick' else \
             [(1, 3), (2, 3), (3, 3), (4, 2), (5, 2), (6, 1), (7, 1)]
-    chunks = sweep.shape_chunks(specs, per_chunk=60, kind='shapes')
+    chunks = sweep.shape_chunks(specs, per_chunk=60, big=True, kind='shapes')
     k = 2 if tier == 'quick' else 3
     npool = len(pool())
     seqs = [list(s) for r in range(1, k + 1) for s in itertools.product(range(npool), repeat=r)]
@@ -259,6 +259,13 @@ def check_bank(seq):
                 bad('cli GapDegree', want, rep)
             if sum(rep['per_tree'].values()) != rep['trees'] or sum(rep['per_node'].values()) != rep['nodes']:
                 bad('cli GapDegree sums', (rep['trees'], rep['nodes']), rep)
+        if srcfmt == 'discobrackets':
+            # a reader option must reach the reader: in bracket order every node is one block
+            st, so, se, exc = cli.run(['treeanalysis', path, 'GapDegree'] + fmtargs + ['--src-opts', 'disco_reordered'])
+            rep = parse_gap_report(so)
+            want = {'trees': exp['trees'], 'nodes': exp['nodes'], 'per_tree': {0: exp['trees']}, 'per_node': {0: exp['nodes']}}
+            if st != 0 or rep != want:
+                bad('cli GapDegree --src-opts disco_reordered', want, (st, cli.describe(exc), rep))
         st, so, se, exc = cli.run(['treeanalysis', path, 'SentenceCount'] + fmtargs)
         m = re.search(r'^(\d+) sentences$', so, re.M)
         if st != 0 or not m or int(m.group(1)) != len(mts):
